@@ -46,6 +46,11 @@ fn main() {
                 "thorough" => Tier::Thorough,
                 _ => std::process::exit(usage()),
             };
+            if std::env::var("VERIF_INNER").is_err() {
+                // crash containment: the batch runs in a child process; if the library aborts or
+                // segfaults (which no catch_unwind can stop) the parent finds and reports the run
+                std::process::exit(runner::supervise(id, tier, seed_from_env()));
+            }
             match props::scenario(id) {
                 Some(s) => {
                     match refimpl::selftest() {
@@ -71,7 +76,32 @@ fn main() {
         }
         Some("replay") => {
             let Some(p) = args.get(2) else { std::process::exit(usage()) };
-            runner::replay(std::path::Path::new(p), args.iter().any(|a| a == "--quiet"))
+            let quiet = args.iter().any(|a| a == "--quiet");
+            if std::env::var("VERIF_INNER").is_ok() {
+                runner::replay(std::path::Path::new(p), quiet)
+            } else {
+                runner::replay_supervised(std::path::Path::new(p), quiet)
+            }
+        }
+        Some("crashhunt") => {
+            // crashhunt <Cnn> <tier> <seed> <from> <to>: executes runs sequentially, announcing each first
+            let (Some(id), Some(tier), Some(seed), Some(from), Some(to)) = (args.get(2), args.get(3), args.get(4), args.get(5), args.get(6)) else { std::process::exit(usage()) };
+            let tier = if tier == "thorough" { Tier::Thorough } else { Tier::Quick };
+            match props::scenario(id) {
+                Some(s) => {
+                    use std::io::Write;
+                    let (seed, from, to): (u64, u64, u64) = (seed.parse().unwrap_or(0), from.parse().unwrap_or(0), to.parse().unwrap_or(0));
+                    for i in from..to {
+                        println!("start {i}");
+                        let _ = std::io::stdout().flush();
+                        let p = s.plan(seed, i, tier);
+                        let _ = runner::execute(&p);
+                    }
+                    println!("clean");
+                    0
+                }
+                None => 2,
+            }
         }
         Some("plan") => {
             let (Some(id), Some(run)) = (args.get(2), args.get(3)) else { std::process::exit(usage()) };
@@ -90,7 +120,53 @@ fn main() {
                 None => 2,
             }
         }
+        Some("hashes") => {
+            // hashes <Cnn> <seed> <nruns>: one line per run "run hash violations"
+            let (Some(id), Some(seed), Some(n)) = (args.get(2), args.get(3), args.get(4)) else { std::process::exit(usage()) };
+            match props::scenario(id) {
+                Some(s) => {
+                    for (i, h, v) in runner::run_hashes(&*s, Tier::Quick, seed.parse().unwrap_or(1), n.parse().unwrap_or(10), workers()) {
+                        println!("{i} {h:016x} {v}");
+                    }
+                    0
+                }
+                None => 2,
+            }
+        }
         Some("selftest") => match args.get(2).map(|s| s.as_str()) {
+            Some("determinism") => {
+                // every scenario, several seeds, executed in three fresh processes at worker counts
+                // 1, 5 and 16; all per-run log hashes must be identical
+                let nseeds: u64 = args.get(3).and_then(|s| s.parse().ok()).unwrap_or(6);
+                let exe = std::env::current_exe().expect("exe");
+                let mut bad = 0;
+                let mut total = 0u64;
+                for id in props::ALL {
+                    let s = props::scenario(id).unwrap();
+                    let nruns = s.runs(Tier::Quick).min(if matches!(id, "C04" | "C17" | "C16") { 60 } else { 150 });
+                    for seed in 1..=nseeds {
+                        let mut outs = Vec::new();
+                        for w in ["1", "5", "16"] {
+                            let o = std::process::Command::new(&exe).args(["hashes", id, &seed.to_string(), &nruns.to_string()]).env("VERIF_WORKERS", w).output().expect("spawn");
+                            outs.push(String::from_utf8_lossy(&o.stdout).to_string());
+                        }
+                        total += nruns;
+                        if outs[0] != outs[1] || outs[0] != outs[2] || outs[0].is_empty() {
+                            bad += 1;
+                            println!("DIVERGENCE property={id} seed={seed}");
+                            for (a, b) in outs[0].lines().zip(outs[2].lines()) {
+                                if a != b {
+                                    println!("  workers=1: {a}   workers=16: {b}");
+                                    break;
+                                }
+                            }
+                        }
+                    }
+                    println!("{id}: {nseeds} seeds x {nruns} runs x 3 processes identical so far: {}", bad == 0);
+                }
+                println!("determinism self-test: {total} runs compared across 3 processes each, {bad} divergent (scenario, seed) pairs");
+                if bad == 0 { 0 } else { 2 }
+            }
             Some("refimpl") => match refimpl::selftest() {
                 Ok(n) => {
                     println!("reference implementation reproduces {n} specification vectors");
